@@ -260,7 +260,7 @@ def model_check(ctx, cases):
 
 
 # ---- shrinking -------------------------------------------------------------------------------------------------
-IN_KEYS = ("stream", "stdout", "stderr", "output", "script", "retries", "fails", "emit", "size", "blk", "slowdone", "done")
+IN_KEYS = ("stream", "stdout", "stderr", "output", "script", "retries", "fails", "emit", "size", "blk", "slowdone", "done", "handler")
 
 
 def inputs(c):
@@ -342,25 +342,27 @@ def run(ctx, replay_cases=None):
         cases = replay_cases
     for c in cases:
         c.setdefault("done", 0)
+        c.setdefault("handler", "")
     bad = model_check(ctx, cases)
     judge(ctx, tool, cases)
     for c, what in bad:
         ctx.fail("correspondence", "model and implementation differ: " + what, slim(c), cls={"class": "correspondence"})
     # evidence
     seen = set()
-    hist = {"wiring": {}, "retries": {}, "emit": {}, "size": {}, "final": {}, "stream": {}, "done_channel": {}}
+    hist = {"wiring": {}, "retries": {}, "emit": {}, "size": {}, "final": {}, "stream": {}, "done_channel": {}, "node": {}}
     for c in cases:
         if c["size"] > 0:
             seen.add(json.dumps(inputs(c), sort_keys=True))
         w = "+".join(k for k in ("stdout", "stderr", "output", "script") if c[k]) or "log-only"
         for k, v in (("wiring", w), ("retries", c["retries"]), ("emit", c["emit"]), ("size", c["size"] if c["stream"] == "matrix" else "random"),
                      ("final", "hang" if c.get("hang") else c.get("node_status")), ("stream", c["stream"]),
-                     ("done_channel", "slow reader" if c.get("slowdone") else "prompt reader" if c.get("done") else "none")):
+                     ("done_channel", "slow reader" if c.get("slowdone") else "prompt reader" if c.get("done") else "none"),
+                     ("node", ("handler on" + c["handler"] + (" exit 1" if c["fails"] else " exit 0")) if c.get("handler") else "step")):
             hist[k][str(v)] = hist[k].get(str(v), 0) + 1
     ctx.cov["evaluations"] = len(cases)
     ctx.cov["traces_validated_against_impl"] = len(cases)
     ctx.cov["distinct_nontrivial"] = len(seen)
-    ctx.cov["rule"] = ("one case = one real scheduler run of one step with real sh children; distinct = distinct (stdout, stderr, output, script, "
+    ctx.cov["rule"] = ("one case = one real scheduler run of one step (or one lifecycle handler) with real sh children; distinct = distinct (stdout, stderr, output, script, "
                        "retry limit, failing attempts, streams, size, block size, done-reader delay); non-trivial = the step prints at least one byte")
     ctx.cov["distribution"] = hist
     ctx.cov["bytes_compared"] = sum((c["log"].get("len", 0) + c["out_file"].get("len", 0) + c["err_file"].get("len", 0)) for c in cases if not c.get("err"))
@@ -399,7 +401,8 @@ def replay(ctx, path):
         cases.append(fi.get("case", fi))
     if isinstance(body.get("case"), dict):
         cases.append(body["case"])
-    cases = [inputs(dict({"done": 0}, **c)) for c in cases if isinstance(c, dict) and all(k in c for k in IN_KEYS if k != "done")]
+    cases = [inputs(dict({"done": 0, "handler": ""}, **c)) for c in cases
+             if isinstance(c, dict) and all(k in c for k in IN_KEYS if k not in ("done", "handler"))]
     tool, out, _ = vlib.go_build("logs", ctx.scratch)
     if tool is None:
         ctx.fail("correspondence", "harness does not build against /repo", {"log": out[-2000:]})
